@@ -1017,6 +1017,10 @@ std::string sqf::parser::preprocessor::impl_default::instance::parse_ppinstructi
     }
     else
     {
+        if (!(current_file_scope().conditions.empty() || current_file_scope().conditions.back().allow_write))
+        { // a directive in an inactive branch has no effect, whatever its name
+            return "\n";
+        }
         m_errflag = true;
         log(err::UnknownInstruction(directive_dinf, inst));
         return "";
